@@ -618,6 +618,12 @@ class Node:
             if before is True or (isinstance(before, int) and before is not False):
                 # All nodes are inserted at the same index: reverse to keep order
                 topnodes.reverse()
+            # Check all top nodes first: we must not fail after some were added
+            for n in topnodes:
+                if any(c._data_id == n._data_id for c in self.children):
+                    raise UniqueConstraintError(
+                        f"Node.data already exists in parent: {n}"
+                    )
             n = None
             for n in topnodes:
                 self.add_child(n, before=before, deep=deep)
@@ -894,6 +900,12 @@ class Node:
         assert before is None
         if not self._children:
             raise ValueError("Need child nodes when `add_self=False`")
+        # Check all children first: we must not fail after some were copied
+        for child in self.children:
+            if any(c._data_id == child._data_id for c in target.children):
+                raise UniqueConstraintError(
+                    f"Node.data already exists in parent: {child}"
+                )
         res = None
         for child in self.children:
             n = target.add_child(child, before=None, deep=deep)
